@@ -10,12 +10,21 @@ class Facts:
             text = fh.read()
         self.raw = json.loads(text)
         self.aliases = {}
+        self.unwrapped_newtypes = []
+        if reference is not None:
+            from .normalize import unwrap_newtypes
+            t2, un = unwrap_newtypes(self.raw, reference, self.raw["crate"])
+            if t2 is not None:
+                text = t2
+                self.raw = json.loads(text)
+                self.unwrapped_newtypes = un
         if reference is not None:
             from .inline import rename_aliases, apply_aliases
             self.aliases = rename_aliases(self.raw, reference)
             perms = self.raw.pop("_param_perms", {})
             if self.aliases:
                 self.raw = json.loads(apply_aliases(text, self.aliases))
+            if perms:
                 from .inline import restore_param_order
                 restore_param_order(self.raw, perms)
             from .inline import restore_self_params
